@@ -148,7 +148,7 @@ fn one_broadcast(pool: &Pool, bi: usize, b: &Broadcast, max_n_before: usize, res
     results.clear();
     // A payload whose destructor panics makes `broadcast` itself unwind (after
     // it has waited for the workers); the oracles below apply all the same.
-    let unwound = std::panic::catch_unwind(std::panic::AssertUnwindSafe(|| {
+    let unwound = match std::panic::catch_unwind(std::panic::AssertUnwindSafe(|| {
         if b.extend {
             results.push(Some(424242)); // pre-existing element must be preserved
             pool.par_extend(&mut *results, n, &body);
@@ -157,8 +157,15 @@ fn one_broadcast(pool: &Pool, bi: usize, b: &Broadcast, max_n_before: usize, res
                 body(i);
             });
         }
-    }))
-    .is_err();
+    })) {
+        Ok(()) => false,
+        Err(payload) => {
+            // (the payload may be the Bomb itself when the pool let the call's panic through uncaught:
+            // its destructor must not run here)
+            std::mem::forget(payload);
+            true
+        }
+    };
     if unwound != (b.bomb && b.panics.contains(&0)) {
         oracle!("C06", "unexpected-unwind", "broadcast {bi} (n={n}): broadcast {} although panicking subset is {:?} (bomb payload: {})", if unwound { "unwound" } else { "returned normally" }, b.panics, b.bomb);
     }
